@@ -207,6 +207,7 @@ def _run_order(task, c):
         root = _probe(src, gen, kind)
         lo, hi = root.count * w // nw, root.count * (w + 1) // nw
         hist = []
+        prev = None
         for order in (range(lo, hi), range(hi - 1, lo - 1, -1)):
             for i in order:
                 _, _, t0 = rsource.run_scripted(src, gen, [i])
@@ -218,6 +219,10 @@ def _run_order(task, c):
                     n += 1
                     try:
                         _oracle(kind, rebuild, obj, exc, trace)
+                        # the start handed out by the PREVIOUS call still describes itself correctly
+                        if prev is not None:
+                            _oracle(kind, rebuild, prev[0], None, prev[1])
+                        prev = (obj, trace)
                     except Violation as v:
                         v.case["history"] = [list(h) for h in hist[-40:]]
                         v.clause = v.clause + ":after_earlier_calls"
